@@ -50,30 +50,66 @@ def check(an, rep, tier):
     # --- O-pivot
     fn = prog.func('optima.optima_tt_beam')
     mod = fn.module
+    from .. import roles, rules_formula as F_
     piv = first = loop = None
+    zname = roles.unpacked_from_call(prog, fn, 'orthogonalize', 0)
+    dir_par = 'l2r'                                  # documented parameter
+    D_ = 5
+    env_ = {'len(%s)' % fn.params[0]: D_}
+    for node in ast.walk(fn.node):
+        if isinstance(node, ast.Assign) and \
+                isinstance(node.targets[0], ast.Name) and \
+                isinstance(node.value, ast.Call) and \
+                isinstance(node.value.func, ast.Name) and \
+                node.value.func.id == 'len' and node.value.args and \
+                isinstance(node.value.args[0], ast.Name) and \
+                node.value.args[0].id == fn.params[0]:
+            env_[node.targets[0].id] = D_
     for node in ast.walk(fn.node):
         if isinstance(node, ast.Call) and \
                 (prog.dotted(node.func) or '').endswith('orthogonalize'):
-            piv = node.args[1] if len(node.args) > 1 else None
+            piv = roles.arg(prog, mod, node, 'k', 1)
         if isinstance(node, ast.Assign) and \
-                isinstance(node.targets[0], ast.Name) and \
-                node.targets[0].id == 'G' and \
-                isinstance(node.value, ast.Subscript) and first is None:
+                isinstance(node.value, ast.Subscript) and \
+                isinstance(node.value.value, ast.Name) and \
+                node.value.value.id == zname and \
+                isinstance(node.value.slice, ast.IfExp) and first is None:
             first = node.value.slice
         if isinstance(node, ast.For) and isinstance(node.iter, ast.IfExp):
             loop = node.iter
 
-    def ifexp(n):
-        if isinstance(n, ast.IfExp) and isinstance(n.test, ast.Name) and \
-                n.test.id == 'l2r':
-            return (paths.src(mod, n.body).replace(' ', ''),
-                    paths.src(mod, n.orelse).replace(' ', ''))
-        return None
-    p, f, lp = ifexp(piv), ifexp(first), ifexp(loop)
-    ok = p in (('0', 'len(Y)-1'), ('0', 'd-1')) and f == ('0', '-1') and \
-        lp == ('Z[1:]', 'Z[:-1][::-1]')
+    def arms(n):
+        """(value when l2r, value otherwise) of an IfExp on the direction
+        flag, in either arm order."""
+        if not isinstance(n, ast.IfExp):
+            return None
+        t, flip = n.test, False
+        while isinstance(t, ast.UnaryOp) and isinstance(t.op, ast.Not):
+            t, flip = t.operand, not flip
+        if not (isinstance(t, ast.Name) and t.id == dir_par):
+            return None
+        return (n.orelse, n.body) if flip else (n.body, n.orelse)
+
+    def fold2(n):
+        ab = arms(n)
+        return None if ab is None else tuple(F_._eval_int(x, env_)
+                                             for x in ab)
+
+    def same_as(node, text):
+        try:
+            return ast.dump(node) == ast.dump(
+                ast.parse(text, mode='eval').body)
+        except SyntaxError:
+            return False
+    p, f = fold2(piv), fold2(first)
+    la = arms(loop)
+    lp = la is not None and zname is not None and \
+        same_as(la[0], '%s[1:]' % zname) and \
+        same_as(la[1], '%s[:-1][::-1]' % zname)
+    ok = p == (0, D_ - 1) and f in ((0, -1), (0, D_ - 1)) and lp
     rep.add('O-pivot', 'optima.optima_tt_beam',
-            'pivot %s / first core %s / sweep %s' % (p, f, lp),
+            'pivot %s / first core %s (folded at d=%d) / sweep over the '
+            'remaining cores in sweep order: %s' % (p, f, D_, lp),
             'ok' if ok else 'violation',
             '' if ok else 'in each direction the pivot of the '
             'orthogonalisation, the first core and the remaining sweep must '
@@ -93,33 +129,47 @@ def check(an, rep, tier):
                                                                     'absolute')
                     for x in ast.walk(node.value)):
             qmax_names.add(node.targets[0].id)
-    for node in ast.walk(fn.node):
-        if isinstance(node, ast.Assign) and \
-                isinstance(node.targets[0], ast.Name) and \
-                node.targets[0].id == 'norms':
-            for x in ast.walk(node.value):
-                if isinstance(x, ast.BinOp) and isinstance(x.op, ast.Pow):
-                    base = x.left
-                    if isinstance(base, ast.BinOp) and \
-                            isinstance(base.op, ast.Div) and \
-                            isinstance(base.right, ast.Name) and \
-                            base.right.id in qmax_names:
-                        okn = True
+    n_sq = 0
+    for x in ast.walk(fn.node):
+        if isinstance(x, ast.BinOp) and isinstance(x.op, ast.Pow) and \
+                isinstance(x.right, ast.Constant) and x.right.value == 2 and \
+                not isinstance(x.left, ast.Constant):
+            n_sq += 1
+            base = x.left
+            if isinstance(base, ast.BinOp) and \
+                    isinstance(base.op, ast.Div) and \
+                    isinstance(base.right, ast.Name) and \
+                    base.right.id in qmax_names:
+                okn = True
+            else:
+                okn = False
+                break
     rep.add('P-normalise', 'optima.optima_tt_beam', 'norms = sum((Q / '
             'max|Q|)**2)', 'ok' if okn else 'violation',
             '' if okn else 'the squared candidate norms are no longer taken '
             'of Q scaled by its largest modulus: the squares under- / '
             'overflow for representable tensors and all candidates tie',
             line=fn.node.lineno, file=mod.path)
-    # --- ledger
+    # --- ledger: the running matrix is the array that is re-scaled in place
+    # by 2**p0 (found from that statement, whatever it is called)
+    qname = None
+    for node in ast.walk(fn.node):
+        if isinstance(node, ast.AugAssign) and \
+                isinstance(node.op, ast.Mult) and \
+                isinstance(node.target, ast.Name) and \
+                isinstance(node.value, ast.BinOp) and \
+                isinstance(node.value.op, ast.Pow) and \
+                isinstance(node.value.left, ast.Constant) and \
+                node.value.left.value == 2:
+            qname = node.target.id
     for d in ds:
         for vi in (0, 1):
             got = []
 
             def hook(I, fn_, outs, got=got):
                 for o in outs:
-                    if o.kind == 'ret' and 'Q' in o.env:
-                        got.append(o.env['Q'])
+                    if o.kind == 'ret' and qname in o.env:
+                        got.append(o.env[qname])
             I = interp.Interp(prog, {'split': dict(specs.DEFAULT_SPLIT),
                                      'summary': dict(specs.DEFAULT_SUMMARY)})
             I.trace_hooks['optima.optima_tt_beam'] = hook
@@ -130,69 +180,116 @@ def check(an, rep, tier):
                              'after the last core (variant %d, d=%d)'
                              % (vi, d), q, None)
     # --- V-provenance
-    def value_is_get_of_param(fn, val_name, idx_name, param='Y'):
-        """val_name is assigned teneva.get(<param>, idx_name)."""
-        for node in ast.walk(fn.node):
-            if isinstance(node, ast.Assign) and \
-                    isinstance(node.targets[0], ast.Name) and \
-                    node.targets[0].id == val_name and \
-                    isinstance(node.value, ast.Call) and \
-                    (prog.dotted(node.value.func) or '').endswith('.get'):
-                a = node.value.args
-                return len(a) >= 2 and isinstance(a[0], ast.Name) and \
-                    a[0].id == param and isinstance(a[1], ast.Name) and \
-                    a[1].id == idx_name
-        return None
+    # --- V-provenance: every reported value is the entry of the ARGUMENT
+    # tensor at the reported index.  Decided on the abstract run (object
+    # identity of the abstract values; no variable names involved): a reported
+    # (index, value) pair is accepted when the value is the result of a call
+    # get(T, i) with T the argument tensor itself and i the very index that is
+    # returned, or when the pair is the result of optima_tt_max(T, .).
     fq = prog.func('optima.optima_qtt')
-    for vn, inn in (('y_min', 'i_min'), ('y_max', 'i_max')):
-        ok = value_is_get_of_param(fq, vn, inn)
-        rep.add('V-provenance', 'optima.optima_qtt', '%s = get(Y, %s)'
-                % (vn, inn), 'ok' if ok else 'violation',
-                '' if ok else 'the reported value is not the entry of the '
-                'argument tensor at the reported (back-mapped) index')
     ft = prog.func('optima.optima_tt')
-    ok = value_is_get_of_param(ft, 'y2', 'i2')
-    rep.add('V-provenance', 'optima.optima_tt', 'y2 = get(Y, i2)',
-            'ok' if ok else 'violation',
-            '' if ok else 'the second optimum is not evaluated on the '
-            'argument tensor (the squared shifted tensor must only supply the '
-            'index)')
     fm = prog.func('optima.optima_tt_max')
-    mod_m = fm.module
-    txt = model.norm_src(mod_m, fm.node).replace(' ', '')
-    ok = 'y_max_list=[teneva.get(Y,i)foriini_max_list]' in txt and \
-        'returni_max_list[index_best],y_max_list[index_best]' in txt
+
+    def is_arg_tensor(v):
+        return v is not None and v.k == 'list' and v.label == ('P', 'Y')
+
+    def pair_status(I, i, y):
+        for q, args, res in I.call_log:
+            if q == 'act_one.get' and res is y:
+                if args.get('i') is i and is_arg_tensor(args.get('Y')):
+                    return 'ok', ''
+                if not is_arg_tensor(args.get('Y')):
+                    return 'violation', 'the reported value is read from a ' \
+                        'derived tensor, not from the argument'
+                return 'violation', 'the reported value is get(Y, j) for an ' \
+                    'index j that is not the reported one'
+            if q == 'optima.optima_tt_max' and res.k == 'tuple' and \
+                    res.items and len(res.items) == 2 and \
+                    res.items[1] is y:
+                if res.items[0] is i and is_arg_tensor(args.get('Y')):
+                    return 'ok', ''
+                if not is_arg_tensor(args.get('Y')):
+                    return 'violation', 'the reported value is the optimum ' \
+                        'of a derived tensor (shifted / squared), not an ' \
+                        'entry of the argument'
+                return 'violation', 'index and value come from different ' \
+                    'searches'
+        return 'unknown', 'provenance of the reported value not recognised'
+
+    o_ = {'split': dict(specs.DEFAULT_SPLIT),
+          'summary': dict(specs.DEFAULT_SUMMARY)}
+    for fx, spec in ((ft, 'tt'), (fq, 'ttm8')):
+        I = interp.Interp(prog, dict(o_))
+        I.run_function(fx, {'Y': specs.build(spec, 'Y', 2)})
+        n_ret = 0
+        for rv in I.entry_returns:
+            if rv.k != 'tuple' or not rv.items or len(rv.items) != 4:
+                continue
+            n_ret += 1
+            for a_, b_, nm in ((0, 1, 'first'), (2, 3, 'second')):
+                st, detail = pair_status(I, rv.items[a_], rv.items[b_])
+                rep.add('V-provenance', fx.qualname, '%s (index, value) pair '
+                        'of return path %d is an entry of the argument tensor '
+                        'at the reported index' % (nm, n_ret), st, detail,
+                        line=fx.node.lineno, file=fx.module.path)
+    # optima_tt_max: the values are get(<argument>, i) mapped over the very
+    # list of candidate indices, and index / value are selected by one position
+    st, detail = 'unknown', 'pattern not recognised'
+    for node in ast.walk(fm.node):
+        if not (isinstance(node, ast.Return) and
+                isinstance(node.value, ast.Tuple) and
+                len(node.value.elts) == 2 and
+                all(isinstance(e, ast.Subscript) and
+                    isinstance(e.value, ast.Name) for e in node.value.elts)):
+            continue
+        ei, ev = node.value.elts
+        same_pos = ast.dump(ei.slice) == ast.dump(ev.slice)
+        comp = None
+        for n2 in ast.walk(fm.node):
+            if isinstance(n2, ast.Assign) and \
+                    isinstance(n2.targets[0], ast.Name) and \
+                    n2.targets[0].id == ev.value.id and \
+                    isinstance(n2.value, ast.ListComp):
+                comp = n2.value
+        if comp is None or len(comp.generators) != 1:
+            continue
+        g = comp.generators[0]
+        call = comp.elt
+        from .. import roles as _roles
+        a_y = _roles.arg(prog, fm.module, call, 'Y', 0) \
+            if isinstance(call, ast.Call) else None
+        a_i = _roles.arg(prog, fm.module, call, 'i', 1) \
+            if isinstance(call, ast.Call) else None
+        good = isinstance(call, ast.Call) and \
+            (prog.dotted(call.func) or '').split('.')[-1] == 'get' and \
+            isinstance(a_y, ast.Name) and a_y.id == fm.params[0] and \
+            isinstance(a_i, ast.Name) and \
+            isinstance(g.target, ast.Name) and \
+            a_i.id == g.target.id and \
+            isinstance(g.iter, ast.Name) and g.iter.id == ei.value.id and \
+            not g.ifs
+        if good and same_pos:
+            st, detail = 'ok', ''
+        else:
+            st, detail = 'violation', (
+                'index and value of the best candidate are selected by '
+                'different positions' if not same_pos else
+                'the candidate values are not get(%s, i) mapped over the '
+                'list of candidate indices' % fm.params[0])
     rep.add('V-provenance', 'optima.optima_tt_max', 'values are get(Y, i) '
             'for the candidate indices, index and value selected by the same '
-            'position', 'ok' if ok else 'violation',
-            '' if ok else 'index / value pairing of the best candidate '
-            'changed')
-    # --- P-order
-    ok = False
-    for node in ast.walk(ft.node):
-        if isinstance(node, ast.If) and isinstance(node.test, ast.Compare) and \
-                len(node.test.ops) == 1 and \
-                isinstance(node.test.left, ast.Name) and \
-                isinstance(node.test.comparators[0], ast.Name):
-            big, small = node.test.left.id, node.test.comparators[0].id
-            if isinstance(node.test.ops[0], (ast.Lt, ast.LtE)):
-                big, small = small, big
-            elif not isinstance(node.test.ops[0], (ast.Gt, ast.GtE)):
-                continue
-
-            def slots(stmts):
-                for s in stmts:
-                    if isinstance(s, ast.Return) and \
-                            isinstance(s.value, ast.Tuple) and \
-                            len(s.value.elts) == 4:
-                        return [getattr(e, 'id', None) for e in s.value.elts]
-                return None
-            t, e = slots(node.body), slots(node.orelse)
-            if t and e:
-                ok = t[1] == small and t[3] == big and e[1] == big and \
-                    e[3] == small and t[0][1:] == t[1][1:] and \
-                    t[2][1:] == t[3][1:] and e[0][1:] == e[1][1:] and \
-                    e[2][1:] == e[3][1:]
+            'position', st, detail, line=fm.node.lineno, file=fm.module.path)
+    # --- P-order: on every return path the guards imply
+    #     <value in the min slot>  <=  <value in the max slot>
+    # (pairing of indices with values is V-provenance above)
+    rets4 = [n for n in ast.walk(ft.node) if isinstance(n, ast.Return) and
+             isinstance(n.value, ast.Tuple) and len(n.value.elts) == 4]
+    ok = bool(rets4)
+    for rn in rets4:
+        lo_, hi_ = rn.value.elts[1], rn.value.elts[3]
+        gs_ = paths.guards_of(ft.node, rn)
+        ok = ok and (paths.holds(gs_, lo_, ast.Lt, hi_) or
+                     paths.holds(gs_, lo_, ast.LtE, hi_))
     rep.add('P-order', 'optima.optima_tt', 'min slot receives the value the '
             'guard proved not larger, indices travel with their values',
             'ok' if ok else 'violation',
@@ -215,14 +312,26 @@ def check(an, rep, tier):
     n_raise = sum(1 for x in I.raises if x[1] == 'ValueError')
     rep.add('P-domain', 'optima.optima_qtt', 'unequal mode sizes can be '
             'rejected', 'ok' if n_raise >= 1 else 'violation', '')
+    # the exponent q = int(log2(n)) that was checked against the mode size
+    # is the one used to map the indices back
+    qdef = {n_.targets[0].id for n_ in ast.walk(fq.node)
+            if isinstance(n_, ast.Assign) and
+            isinstance(n_.targets[0], ast.Name) and
+            any(isinstance(c, ast.Call) and
+                (prog.dotted(c.func) or '').endswith('log2')
+                for c in ast.walk(n_.value))}
     qs = set()
     for node in ast.walk(fq.node):
         if isinstance(node, ast.Call) and \
                 (prog.dotted(node.func) or '').endswith('ind_qtt_to_tt'):
-            qs.add(paths.src(fq.module, node.args[1]) if len(node.args) > 1
-                   else None)
-    rep.add('P-domain', 'optima.optima_qtt', 'indices mapped back with %s'
-            % sorted(map(str, qs)), 'ok' if qs == {'q'} else 'violation', '')
+            from .. import roles as _roles
+            a1 = _roles.arg(prog, fq.module, node, 'q', 1)
+            qs.add(a1.id if isinstance(a1, ast.Name) else None)
+    rep.add('P-domain', 'optima.optima_qtt', 'indices mapped back with the '
+            'checked exponent', 'ok' if qs and qs <= qdef and len(qdef) == 1
+            else 'violation', '' if qs and qs <= qdef else
+            'ind_qtt_to_tt receives %s, the checked exponent is %s'
+            % (sorted(map(str, qs)), sorted(qdef)))
     from .. import rules_proto as _RP
     _callers = {f.qualname for f in prog.all_functions()
                 if f.module.name in ('optima', 'optima_func')}
